@@ -233,6 +233,26 @@ def run_impl(driver, case):
         except Exception:
             pass
         out["alias"] = [i for i in fresh if driver.snap(env[i]) != regs[i]]
+    # the public in-place methods themselves, on the inputs: x.pow_(2), x.tensor.add_(1), x.fix_nan() leave v*v + 1 with NaN (and
+    # nothing else - infinities stay) replaced by 0, and the validity mask untouched
+    if getattr(driver, "name", "") == "torch":
+        try:
+            n_in = len(case["inputs"])
+            probe = [driver.make(t) for t in case["inputs"]]
+            for x in probe:
+                x.pow_(2.0)
+                x.tensor.add_(1.0)
+                r = x.fix_nan()
+            for i, (t, x) in enumerate(zip(case["inputs"], probe)):
+                a = np.array([dec_val(v) for v in t["vals"]], dtype=np.float64).reshape(t["shape"])
+                with np.errstate(all="ignore"):
+                    e = a * a + 1.0
+                e = np.where(np.isnan(e), 0.0, e)
+                if snap_np(e, np.array(t["mask"], dtype=bool).reshape(t["shape"])) != driver.snap(x):
+                    out["inplace"] = i
+                    break
+        except Exception as ex:
+            out["inplace"] = "raises %s" % type(ex).__name__
     return out
 
 
